@@ -179,6 +179,7 @@ type rtOp struct {
 	Ser      uint64
 	CfgIdx   int // register: index into the client's seen versions, -1 = no config (zero CfgSerial)
 	Ctx      int
+	Begin    int // the step in which the operation was begun
 }
 
 func (o rtOp) label(r *rtRun, c *rtClient) string {
